@@ -5,9 +5,10 @@ import glob, json, os
 V = os.path.dirname(os.path.dirname(os.path.abspath(__file__)))
 ids = [json.loads(l)["id"] for l in open(os.path.join(V, "properties.jsonl"))]
 checks = []
+ready = [l.strip() for l in open(os.path.join(V, "props", "claimed.txt")) if l.strip() and not l.startswith("#")]
 for pid in ids:
     p = os.path.join(V, "props", pid + ".json")
-    if not os.path.exists(p):
+    if not os.path.exists(p) or pid not in ready:
         continue
     s = json.load(open(p))
     checks.append({
